@@ -587,8 +587,76 @@ func runSkip(sc *streamScenario, rec *recorder) {
 	data("skipA", full, astits.DemuxerOptPacketSkipper(mkSkipper("skipAd", false)))
 	pass("skipB", filtered)
 	data("skipB", filtered)
+	// the skipper stays in force across Rewind (explicit and auto-detected packet size): after some consumption and a Rewind the
+	// demuxer returns what it returns for the filtered stream
+	rgk := newRng(sc.Seed ^ 0x5151)
+	rewound := func(run string, stream []byte, skipper bool, auto bool) {
+		n := 0
+		sk := func(p *astits.Packet) bool {
+			i := n
+			n++
+			if skipper && i < len(bs.pkts) {
+				return piOf(sc.Skip, i, &bs.pkts[i], sc.Seed)
+			}
+			return false
+		}
+		var dmx *astits.Demuxer
+		if auto {
+			dmx = astits.NewDemuxer(context.Background(), bytes.NewReader(stream), astits.DemuxerOptPacketSkipper(sk))
+		} else {
+			dmx = newDemuxer(bytes.NewReader(stream), sc.Run, astits.DemuxerOptPacketSkipper(sk))
+		}
+		// everything once (the program map a Demuxer keeps across Rewind is then the same in every run), then part of it again
+		for k := 0; k < bound; k++ {
+			if _, err := dmx.NextData(); err != nil {
+				break
+			}
+		}
+		dmx.Rewind()
+		n = 0
+		if skipper {
+			for i, k := 0, rgk.intn(len(bs.pkts)+2); i < k; i++ {
+				if i%2 == 0 {
+					dmx.NextPacket()
+				} else {
+					dmx.NextData()
+				}
+			}
+			dmx.Rewind()
+			n = 0
+		}
+		for k := 0; k < bound; k++ {
+			p, err := dmx.NextPacket()
+			if err != nil {
+				if err == astits.ErrNoMorePackets {
+					rec.ev(M{"ev": "peof", "run": run})
+				} else {
+					rec.ev(M{"ev": "perr", "run": run, "msg": err.Error()})
+				}
+				break
+			}
+			rec.ev(M{"ev": "packet", "run": run, "pid": int(p.Header.PID), "hdg": hdrDigest(p)})
+		}
+		dmx.Rewind()
+		n = 0
+		drainData(dmx, bound, func() int { return 0 }, func(e M) {
+			e["run"] = run
+			rec.ev(e)
+		})
+	}
+	rewound("skipBR", filtered, false, false)
+	rewound("skipRe", full, true, false)
+	if len(bs.pkts) >= 3 && sc.Run.PSize == 0 {
+		rewound("skipRa", full, true, true)
+	}
 	// packets parser
 	g := 0
+	type keptGroup struct {
+		ps   []*astits.Packet
+		pids []int
+		ccs  []int
+	}
+	var keptGroups []keptGroup
 	observer := func(ps []*astits.Packet) ([]*astits.DemuxerData, bool, error) {
 		e := M{"ev": "parsecb", "run": "parserObs", "g": g, "n": len(ps)}
 		g++
@@ -602,9 +670,20 @@ func runSkip(sc *streamScenario, rec *recorder) {
 			e["pusi"] = ps[0].Header.PayloadUnitStartIndicator
 		}
 		rec.ev(e)
+		keptGroups = append(keptGroups, keptGroup{ps, pids, ccs}) // a parser may keep what it was handed
 		return nil, false, nil
 	}
 	data("parserObs", full, astits.DemuxerOptPacketsParser(observer))
+	changed := 0
+	for _, kg := range keptGroups {
+		for k, p := range kg.ps {
+			if p == nil || int(p.Header.PID) != kg.pids[k] || int(p.Header.ContinuityCounter) != kg.ccs[k] {
+				changed++
+				break
+			}
+		}
+	}
+	rec.ev(M{"ev": "parsekept", "run": "parserObs", "groups": len(keptGroups), "changed": changed})
 	g2 := 0
 	replacer := func(ps []*astits.Packet) ([]*astits.DemuxerData, bool, error) {
 		k := g2
